@@ -48,6 +48,10 @@ LEVELS = [(0.05, 0.05), (0.1, 0.01), (0.25, 0.125), (0.01, 0.1), (0.2, 0.05)]
 INF = float("inf")
 
 
+LABEL_FORMS = {"int": int, "bool": bool, "np.int64": np.int64, "np.bool_": np.bool_,
+               "array1": lambda v: np.array([v]), "boolarray1": lambda v: np.array([bool(v)])}
+
+
 def H(*xs):
     return int(hashlib.sha256(repr(xs).encode()).hexdigest()[:8], 16)
 
@@ -114,8 +118,9 @@ def impl_update(tap, d, cfg, yt, yp, seed):
         return {"state": d, "recs": "?", "total": -1, "since": -1, "nstates": -1, "last": "?", "blocks": [], "R": None}
     tap.take()
     np.random.seed(seed)
+    E = LABEL_FORMS.get(cfg.get("enc", "int"), int)     # the 0/1 labels in another guise (same confusion cell)
     try:
-        d.update(yt, yp)
+        d.update(E(yt), E(yp))
         st = d.drift_state
         state = core.dstr(st) if st in (None, "warning", "drift") else "X:" + repr(st)
         ads = d.all_drift_states
@@ -381,7 +386,8 @@ def random_cfg(rng, i):
     warn, detect = LEVELS[int(rng.integers(len(LEVELS)))]
     return {"eta": float(rng.choice([0.5, 0.9, 0.99], p=[0.4, 0.45, 0.15])), "warn": warn, "detect": detect,
             "burn_in": int(rng.choice([0, 5, 20], p=[0.2, 0.3, 0.5])), "num_mc": int(rng.choice([15, 40])),
-            "subsample": int(rng.choice([1, 3])), "round_val": int(rng.choice([1, 4])), "tracked": tracked}
+            "subsample": int(rng.choice([1, 3])), "round_val": int(rng.choice([1, 4])), "tracked": tracked,
+            "enc": list(LABEL_FORMS)[i % len(LABEL_FORMS)]}
 
 
 EXH_CFGS = [
